@@ -303,7 +303,7 @@ impl<'a> Walk<'a> {
                     pkt.bytes = self.resp.bad_auth(&id, method, integ, err);
                 }
                 Plan::Challenge401 { algs, anonymity, cookie, new_realm } => {
-                    let variant = if rng.chance(1, 5) { 1 + rng.below(5) as u8 } else { 0 };
+                    let variant = if rng.chance(1, 5) { 1 + rng.below(6) as u8 } else { 0 };
                     let (b, st) = self.resp.challenge_variant(rng, &id, method, algs, anonymity, cookie, new_realm, variant);
                     pkt.bytes = b;
                     pkt.lt_on_retry = Some(st);
@@ -315,6 +315,13 @@ impl<'a> Walk<'a> {
                     Some(b) => {
                         pkt.bytes = b;
                         pkt.label = "stale-438-bad-integrity".into();
+                    }
+                    None => continue,
+                },
+                Plan::Stale438 if rng.chance(1, 5) => match self.resp.stale_no_nonce(&id, method) {
+                    Some(b) => {
+                        pkt.bytes = b;
+                        pkt.label = "stale-438-authentic-without-nonce".into();
                     }
                     None => continue,
                 },
